@@ -173,7 +173,7 @@ func (f fmtCfg) handler() netty.Handler {
 
 // event is one thing that reached the end of the pipeline, in order.
 type event struct {
-	kind byte // 'm' message, 'x' exception, 'i' inactive
+	kind byte // 'm' message, 'x' exception, 'i' inactive, 's' spin detected by spinProbe
 	msg  interface{}
 	err  error
 }
@@ -235,6 +235,37 @@ func (c *collector) HandleInactive(ctx netty.InactiveContext, ex netty.Exception
 	ctx.HandleInactive(ex)
 }
 
+func (c *collector) count() int {
+	c.mu.Lock()
+	defer c.mu.Unlock()
+	return len(c.events)
+}
+
+// spinProbe sits in front of the format codec when there is no frame codec.
+// It forwards the message untouched and ends the trial when the codec returned
+// three times in a row without delivering or raising although all scripted
+// input had been consumed and EOF was pending: such a read loop would spin
+// forever, and waiting for the watchdog would only waste time.
+type spinProbe struct {
+	col  *collector
+	tr   *mon.RecTransport
+	idle int
+}
+
+func (p *spinProbe) HandleRead(ctx netty.InboundContext, message netty.Message) {
+	before := p.col.count()
+	ctx.HandleRead(message) // a panic (exception) propagates past this frame
+	if p.col.count() != before || !p.tr.ScriptExhausted() {
+		p.idle = 0
+		return
+	}
+	if p.idle++; p.idle >= 3 {
+		p.col.add(event{kind: 's'})
+		p.col.finish()
+		ctx.Channel().Close(nil)
+	}
+}
+
 func (c *collector) snapshot() []event {
 	c.mu.Lock()
 	defer c.mu.Unlock()
@@ -253,12 +284,15 @@ type trial struct {
 // newTrial builds a real channel with pipeline [frame codec?, format codec, collector].
 func newTrial(fc *frameCfg, fm fmtCfg, limit int) *trial {
 	col := newCollector(limit)
+	tr := mon.NewRecTransport()
 	var hs []netty.Handler
 	if fc.handler != nil {
 		hs = append(hs, fc.handler())
+	} else {
+		hs = append(hs, &spinProbe{col: col, tr: tr})
 	}
 	hs = append(hs, fm.handler(), col)
-	rig := mon.NewRig(mon.RigOpts{Mode: mon.Sync, Handlers: hs, NoPark: true, NoHooks: true})
+	rig := mon.NewRig(mon.RigOpts{Mode: mon.Sync, Handlers: hs, NoPark: true, NoHooks: true, Tr: tr})
 	return &trial{rig: rig, col: col}
 }
 
@@ -310,6 +344,8 @@ func describeEvents(evs []event) []string {
 			out = append(out, "message "+clip(fmt.Sprintf("%T %#v", e.msg, e.msg), 160))
 		case 'x':
 			out = append(out, "exception "+errStr(e.err))
+		case 's':
+			out = append(out, "codec returned 3 times in a row without delivering or raising although all input and EOF were available (read loop would spin)")
 		default:
 			out = append(out, "inactive "+errStr(e.err))
 		}
